@@ -352,6 +352,17 @@ def pred_roundtrip(case, stats):
     if type(wire) is not bytes:
         stats.fail('roundtrip', 'roundtrip:dump-not-bytes', case, observed=show(wire), expected='bytes')
         return
+    if isinstance(v, (list, dict)):
+        # one object referenced twice (a value, not a cycle): the serialisation is that of two equal values
+        for shared in ([v, v], {'a': v, 'b': [v]}):
+            try:
+                w2 = tnetstrings.dump(shared)
+            except Exception as e:
+                stats.fail('roundtrip', 'roundtrip:shared-subvalue-' + exc_sig(e), case, observed=show(e), expected='dump of a value holding one object twice')
+                return
+            if w2 != ref_dump(shared):
+                stats.fail('roundtrip', 'roundtrip:shared-subvalue-serialised-differently', case, observed=show(w2), expected=show(ref_dump(shared)))
+                return
     res = tnetstrings.parse(wire)
     if not (isinstance(res, tuple) and len(res) == 2):
         stats.fail('roundtrip', 'roundtrip:parse-result-shape', case, observed=show(res), expected='(value, remain)')
@@ -771,10 +782,19 @@ def pred_sessions(case, stats):
         if not all(machine_supports(v) for v in values):
             raise common.HarnessError('sessions clause generates supported message types only')
         frames = [tnetstrings.dump(v) for v in values]
-        wire = b''.join(frames) + unhx(sess.get('tail', ''))
-        chunks, _ = make_chunks(wire, sess['mode'], sess.get('cuts', []))
+        ign = unhx(sess['ign']) if sess.get('ign') else None
+        if ign:
+            # symbols to ignore between messages: 0..3 of them after each message, the whole stream received at once (they are
+            # skipped where they are already buffered when the next message is awaited)
+            seps = [bytes(ign[j % len(ign)] for j in sp) for sp in sess['seps']]
+            wire = b''.join(f + seps[k % len(seps)] for k, f in enumerate(frames))
+            chunks = [wire]
+            classes.append('ss:ignored-symbols-between-messages:%d' % max(len(seps[k % len(seps)]) for k in range(len(frames))))
+        else:
+            wire = b''.join(frames) + unhx(sess.get('tail', ''))
+            chunks, _ = make_chunks(wire, sess['mode'], sess.get('cuts', []))
         conn = FakeConn(chunks)
-        gen = tnet.tnet_from(conn, ('c20s', si))
+        gen = tnet.tnet_from(conn, ('c20s', si), **({'ignore': ign} if ign else {}))
         take = min(sess['take'], len(values))
         try:
             for k in range(take):
@@ -885,8 +905,12 @@ def paused_cases():
 
 def sessions_cases():
     supported = st.one_of(st_scalar_nodes(True), st_scalar_nodes(True), st_value_nodes(6).map(lambda n: {'yd': n}))
-    one = st.builds(lambda m, t, k, c: {'msgs': m, 'tail': t, 'take': k, 'mode': c[0], 'cuts': c[1]},
-                    st.lists(supported, min_size=1, max_size=4), st_tail(), st.integers(1, 4), st_chunking())
+    plain = st.builds(lambda m, t, k, c: {'msgs': m, 'tail': t, 'take': k, 'mode': c[0], 'cuts': c[1]},
+                      st.lists(supported, min_size=1, max_size=4), st_tail(), st.integers(1, 4), st_chunking())
+    separated = st.builds(lambda m, k, ign, seps: {'msgs': m, 'take': k, 'mode': 'whole', 'cuts': [], 'ign': hx(ign), 'seps': seps},
+                          st.lists(supported, min_size=2, max_size=4), st.integers(2, 4), st.sampled_from([b'\n', b'\r\n', b' \t\n']),
+                          st.lists(st.lists(st.integers(0, 5), min_size=0, max_size=3), min_size=1, max_size=4))
+    one = st.one_of(plain, plain, separated)
     return st.builds(lambda l: {'sessions': l}, st.lists(one, min_size=2, max_size=4))
 
 
